@@ -31,6 +31,8 @@ import numpy as np
 from .. import env, probe
 from ..oracles import earth_rot as er
 from ..oracles import kepler_uv as kuv
+from ..oracles import elements as el
+from ..oracles import twobody_ref as tbr
 
 RULE = (
     "case = one UTC instant (class: uniform / day start / day end / 1997-02-27 model switch / table edge) in one EOP "
@@ -62,7 +64,8 @@ ASSUMPTIONS = [
     "documented scheme (Moon 60 m/s, Sun 80 m/s); the centre position is read from the library's public propagator (data)",
     "QSW/TNW-oriented orbit frames: only v' = R (v - v_ref) is asserted (DESIGN decision); axes definitions are C17's",
     "Earth.equatorial_radius, Earth.flattening, Earth.mu of beyond.constants are data",
-    "element forms other than cartesian are C01's subject and are not driven here",
+    "element forms other than cartesian are C01's subject; here they are only carried through frame changes between frames "
+    "centred on different bodies (forms_across_centres: the numbers must be elements about the NEW centre's body)",
     "the IAU-2006/2000A X, Y series value is read from the library through a hook on iau2010._xysxy2 (data); only the wiring "
     "of the IERS dX, dY (column, unit, day) is judged against it; the series itself and the CIO locator s are covered only "
     "by the 0.1\" cross-model clause",
@@ -170,7 +173,8 @@ def requirements(tier):
         "station:south": 50 * k, "station:west": 50 * k, "station:high-lat": 100 * k, "station:equatorial-axes": 5 * k,
         "orbit-frame:None": 100 * k, "orbit-frame:QSW": 100 * k, "orbit-frame:TNW": 100 * k,
         "static-lof:evaluated": 100 * k, "orbit-parent:EME2000": 100 * k, "orbit-parent:MOD": 100 * k, "orbit-parent:TEME": 100 * k,
-        "body-frame:Moon": 100 * k, "body-frame:Sun": 100 * k,
+        "body-frame:Moon": 100 * k, "body-frame:Sun": 100 * k, "forms-across:pairs": 300 * k, "forms-across:return-judged": 100 * k,
+        "forms-across:to-body:Moon": 50 * k, "forms-across:to-body:Sun": 50 * k, "forms-across:to-body:None": 50 * k,
         "date:day-start": 10 * k, "date:day-end": 10 * k, "date:eqeq-switch": 5 * k, "date:table-edge": 8 * k,
         "branch:eqeq-kinematic-terms:on": 20 * k, "branch:eqeq-kinematic-terms:off": 20 * k,
         "hook:Frame.transform": 150000 * k,
@@ -354,6 +358,109 @@ def gen_state(rng, mu, cls=None, bound=False):
     k = rng.uniform(0.8, 1.1) if bound else rng.uniform(0.6, 1.3)
     v = k * math.sqrt(mu / r)
     return np.concatenate([r * rh, v * vh]), cls
+
+
+FORMS_ACROSS = ["keplerian", "keplerian_eccentric", "keplerian_mean", "equinoctial", "spherical", "cylindrical"]
+
+
+def forms_across_centres(ctx, idx, rng, st, date, frames, wit):
+    """A state expressed in an element form keeps its form through a frame change, and the six numbers it then holds are
+    the elements of the converted state ABOUT THE BODY AT THE CENTRE OF THE NEW FRAME (the form conversion happens inside
+    the frame change: statevector.frame setter / copy(frame=)).  Judged against the cartesian route + the element
+    definitions of oracles/elements.py; the conditioning of the element view is measured on the oracle itself."""
+    from beyond.orbits import StateVector
+    from beyond import constants
+
+    bodies = [f for f in frames if f.kind == "body"]
+    plain = [f for f in frames if f.kind in ("orbit-none",) or (f.kind == "builtin" and not f.fixed)]
+    if not bodies or not plain:
+        return
+    mu_of = {"Moon": float(constants.Moon.mu), "Sun": float(constants.Sun.mu)}
+    rad_of = {"Moon": 1.7374e6, "Sun": 6.957e8, None: 6.378e6}
+    pairs = [(rng.choice(plain), bodies[idx % len(bodies)]), (bodies[(idx + 1) % len(bodies)], rng.choice(plain))]
+    if len(bodies) > 1:
+        pairs.append((bodies[idx % 2], bodies[(idx + 1) % 2]))
+    for fa, fb in pairs:
+        mu_b = mu_of.get(fb.body, st["earth"]["mu"])
+        # a bound, well-conditioned orbit about the body of the TARGET frame
+        e = rng.uniform(0.02, 0.6)
+        a = rad_of[fb.body] * rng.uniform(1.5, 10.0) / (1 - e)
+        inc = rng.uniform(0.3, 2.8)
+        O, w_, nu = (rng.uniform(0.2, 6.0) for _ in range(3))
+        r, v = el.kep2cart(a, e, inc, O, w_, nu, mu_b)
+        xb = [float(t) for t in r] + [float(t) for t in v]
+        form = FORMS_ACROSS[(idx + len(fa.name)) % len(FORMS_ACROSS)] if rng.random() < 0.5 else rng.choice(FORMS_ACROSS)
+        w = dict(wit, source=fa.name, target=fb.name, form=form, state_in_target_cartesian=xb)
+        try:
+            xa = StateVector(xb, date, "cartesian", fb.frame).copy(frame=fa.frame)
+            src = xa.copy(form=form)  # the state under test: element form, source frame
+            src_cart = probe.arr(src.copy(form="cartesian"))
+            truth = probe.arr(StateVector(src_cart, date, "cartesian", fa.frame).copy(frame=fb.frame))
+            via_copy = src.copy(frame=fb.frame)
+            via_setter = src.copy()
+            via_setter.frame = fb.frame
+        except Exception as exc:
+            ctx.violation("C02/frame-change-of-element-form-raises", dict(w, exc=repr(exc)), f"{fa.name} -> {fb.name} in form {form}: {exc!r}")
+            continue
+        ctx.count("forms-across:pairs")
+        ctx.count("forms-across:form:" + form)
+        ctx.count("forms-across:to-body:" + str(fb.body))
+        # conditioning of the element view of the truth, measured on the oracle (definitions, then their inverse)
+        vo = el.form_values(form, truth[:3], truth[3:], mu_b)
+        rb, vb = tbr.form_to_cartesian(form, vo, mu_b)
+        rn, vn = float(np.linalg.norm(truth[:3])), float(np.linalg.norm(truth[3:]))
+        noise_r, noise_v = float(np.linalg.norm(rb - truth[:3])), float(np.linalg.norm(vb - truth[3:]))
+        if noise_r > 1e-9 * rn or noise_v > 1e-9 * vn:
+            ctx.count("forms-across:not-judged-ill-conditioned-view")
+            continue
+        for route, obj in (("copy", via_copy), ("setter", via_setter)):
+            ok_lab = obj.form.name == form and obj.frame is fb.frame
+            ctx.expect(ok_lab, "C02/frame-change-loses-form-or-frame-label", dict(w, route=route, form_now=obj.form.name, frame_now=str(obj.frame)),
+                       f"{route}: {fa.name} -> {fb.name} in form {form} gives form {obj.form.name} in frame {obj.frame}")
+            if not ok_lab:
+                continue
+            vals = [float(t) for t in probe.arr(obj)]
+            try:
+                rg, vg = tbr.form_to_cartesian(form, vals, mu_b)
+            except Exception as exc:
+                ctx.violation("C02/element-form-after-frame-change-not-about-new-centre", dict(w, route=route, values=vals, exc=repr(exc)),
+                              f"{route}: the six numbers are not valid {form} elements about the centre of {fb.name}: {exc!r}")
+                continue
+            dr, dv = float(np.linalg.norm(rg - truth[:3])), float(np.linalg.norm(vg - truth[3:]))
+            ww = dict(w, route=route, values=vals, mu_of_target_centre=mu_b, truth=truth.tolist())
+            ctx.resid("forms-across:pos", dr / rn, 1e-8 + 1e3 * noise_r / rn, key="C02/element-form-after-frame-change-not-about-new-centre", witness=ww,
+                      msg=f"{route}: {fa.name} -> {fb.name}, form {form}: the elements read about the centre of {fb.name} are {dr:.6g} m from the converted state")
+            ctx.resid("forms-across:vel", dv / vn, 1e-8 + 1e3 * noise_v / vn, key="C02/element-form-after-frame-change-not-about-new-centre", witness=ww,
+                      msg=f"{route}: {fa.name} -> {fb.name}, form {form}: velocity off by {dv:.6g} m/s")
+            # and back: A -> B -> A is the identity in the element form too
+            try:
+                back = obj.copy(frame=fa.frame) if route == "copy" else obj
+                if route == "setter":
+                    back.frame = fa.frame
+                bc = probe.arr(back.copy(form="cartesian"))
+            except Exception as exc:
+                ctx.violation("C02/frame-change-of-element-form-raises", dict(w, route=route, exc=repr(exc)), f"return trip raised {exc!r}")
+                continue
+            an, avn = float(np.linalg.norm(src_cart[:3])), float(np.linalg.norm(src_cart[3:]))
+            # the return trip re-reads elements about the source centre, where the orbit may be a far hyperbola: tolerance
+            # from the oracle's own round trip there
+            mu_a = mu_of.get(fa.body, st["earth"]["mu"])
+            try:
+                va_ = el.form_values(form, src_cart[:3], src_cart[3:], mu_a)
+                ra2, va2 = tbr.form_to_cartesian(form, va_, mu_a)
+                na_r, na_v = float(np.linalg.norm(ra2 - src_cart[:3])), float(np.linalg.norm(va2 - src_cart[3:]))
+            except Exception:
+                continue
+            if na_r > 1e-9 * an or na_v > 1e-9 * avn:
+                ctx.count("forms-across:return-not-judged-ill-conditioned-view")
+                continue
+            ctx.count("forms-across:return-judged")
+            ctx.resid("forms-across:return:pos", float(np.linalg.norm(bc[:3] - src_cart[:3])) / an, 1e-8 + 1e3 * (na_r / an + noise_r / rn),
+                      key="C02/roundtrip-not-identity:element-form", witness=dict(ww, back=bc.tolist(), start=src_cart.tolist()),
+                      msg=f"{route}: {fa.name} -> {fb.name} -> {fa.name} in form {form} is not the identity")
+            ctx.resid("forms-across:return:vel", float(np.linalg.norm(bc[3:] - src_cart[3:])) / avn, 1e-8 + 1e3 * (na_v / avn + noise_v / vn),
+                      key="C02/roundtrip-not-identity:element-form", witness=dict(ww, back=bc.tolist(), start=src_cart.tolist()),
+                      msg=f"{route}: velocity after the return trip differs")
 
 
 def make_frames(ctx, job, idx, rng, st, day, sec):
@@ -975,6 +1082,7 @@ def run_case(ctx, job, idx, rng, st):
     check_real_chains(ctx, rng, date, frames, maps, mu, wit, 24)
     check_absolute(ctx, st, day, sec, ins, maps, wit)
     check_centres(ctx, st, date, day, sec, frames, maps, wit)
+    forms_across_centres(ctx, idx, rng, st, date, frames, wit)
 
     # ---------------- kinematic pairs
     by = {f.name: f for f in frames}
